@@ -109,6 +109,9 @@ func RunWorker(a WorkerArgs) int {
 		hashW = bufio.NewWriter(f)
 		defer hashW.Flush()
 	}
+	// one collection now, so that the runtime creates its background workers
+	// (which counts as allocation) before any scenario meters allocations
+	runtime.GC()
 	StartWatchdog(filepath.Join(a.OutDir, fmt.Sprintf("w%d.hung", a.K)), HangCPULimit(20*time.Second))
 	defer WatchdogIdle()
 	inflight := filepath.Join(a.OutDir, fmt.Sprintf("w%d.inflight", a.K))
